@@ -189,8 +189,54 @@ func endToEnd(c *mon.Ctx, r *gen.Rand) {
 			c.Fail("e2e:pcr-after-opcr", "setting the OPCR changed the PCR", wit{Op: "PCR", Value: v, Got: fmt.Sprint(g)})
 		}
 	}
-	// PTS / DTS through a PES header
-	h := ref.PES{StreamID: 0xe0, Flags1: byte(r.Intn(64)), Flags2Low6: 0, PTSDTS: []byte{2, 3}[r.Intn(2)], PTS: r.U33(), DTS: r.U33(), Extra: r.Bytes(r.Intn(4)), Payload: r.Bytes(1 + r.Intn(8))}
+	// one clock reference is taken away again (with further fields behind it): the other one stays what it was
+	if withP && withO && r.Chance(3) {
+		tpd := r.Bytes(1 + r.Intn(40))
+		eT := af.SetHasTransportPrivateData(true)
+		if eT == nil {
+			eT = af.SetTransportPrivateData(tpd)
+		}
+		if r.Bool() {
+			af.SetHasAdaptationFieldExtension(true)
+			af.SetAdaptationFieldExtension(r.Bytes(r.Intn(20)))
+		}
+		if r.Bool() {
+			if err := af.SetHasPCR(false); err != nil {
+				c.Fail("e2e:remove-pcr", "SetHasPCR(false) failed: "+err.Error(), wit{Op: "SetHasPCR(false)"})
+			}
+			c.Count("e2e.pcr_removed_opcr_kept")
+			if g, err := af.OPCR(); err != nil || g != o {
+				c.Fail("e2e:opcr-after-pcr-removed", fmt.Sprintf("OPCR() = %d, %v after the PCR in front of it was removed; the OPCR set is %d", g, err, o), wit{Op: "OPCR", Value: o, Got: fmt.Sprint(g)})
+			}
+			if b, err := adaptationfield.OPCR(p); err != nil || ref.DecPCR(b) != o {
+				c.Fail("e2e:opcr-after-pcr-removed", fmt.Sprintf("adaptationfield.OPCR bytes %x do not encode %d after the PCR was removed (%v)", b, o, err), wit{Op: "adaptationfield.OPCR", Value: o, Got: mon.Hex(b)})
+			}
+		} else {
+			if err := af.SetHasOPCR(false); err != nil {
+				c.Fail("e2e:remove-opcr", "SetHasOPCR(false) failed: "+err.Error(), wit{Op: "SetHasOPCR(false)"})
+			}
+			c.Count("e2e.opcr_removed_pcr_kept")
+			if g, err := af.PCR(); err != nil || g != v {
+				c.Fail("e2e:pcr-after-opcr-removed", fmt.Sprintf("PCR() = %d, %v after the OPCR behind it was removed; the PCR set is %d", g, err, v), wit{Op: "PCR", Value: v, Got: fmt.Sprint(g)})
+			}
+		}
+		if eT == nil {
+			if b, err := adaptationfield.TransportPrivateData(p); err != nil || !bytes.Equal(b, tpd) {
+				c.Fail("e2e:private-data-after-clock-removed", fmt.Sprintf("the transport private data behind the clock references reads %x (%v) after one of them was removed; set %x", b, err, tpd), wit{Op: "TransportPrivateData", Got: mon.Hex(b)})
+			}
+		}
+	}
+	// PTS / DTS through a PES header, on every stream id that has the optional header
+	sid := byte(0xe0)
+	if r.Bool() {
+		for {
+			sid = byte(0xbc + r.Intn(0x44))
+			if !ref.PESNoOptionalHeader(sid) {
+				break
+			}
+		}
+	}
+	h := ref.PES{StreamID: sid, Flags1: byte(r.Intn(64)), Flags2Low6: 0, PTSDTS: []byte{2, 3}[r.Intn(2)], PTS: r.U33(), DTS: r.U33(), Extra: r.Bytes(r.Intn(4)), Payload: r.Bytes(1 + r.Intn(8))}
 	if r.Chance(3) {
 		h.Payload = r.Bytes(r.Intn(6))
 	}
@@ -235,7 +281,7 @@ func endToEnd(c *mon.Ctx, r *gen.Rand) {
 	if !ph.HasPTS() || ph.PTS() != h.PTS || (h.PTSDTS == 3 && ph.DTS() != h.DTS) {
 		c.Fail("e2e:pes-times-follow-callers-buffer", fmt.Sprintf("after the caller overwrote its buffer the decoded header reports PTS %d / DTS %d instead of %d / %d", ph.PTS(), ph.DTS(), h.PTS, h.DTS), wit{Op: "PTS after buffer re-use", Value: h.PTS})
 	}
-	c.Class(fmt.Sprintf("e2e/pcr=%v/opcr=%v/ptsdts=%d/pcrclass=%s", withP, withO, h.PTSDTS, popclass(v>>36)))
+	c.Class(fmt.Sprintf("e2e/pcr=%v/opcr=%v/ptsdts=%d/pcrclass=%s/sid=%x", withP, withO, h.PTSDTS, popclass(v>>36), sid>>4))
 }
 
 func sl(a [6]byte) []byte { return a[:] }
@@ -287,8 +333,21 @@ func run(c *mon.Ctx) {
 				c.Fail("pts:decoders-disagree", fmt.Sprintf("gots.ExtractTime(%x)=%d, pes.ExtractTime=%d, reference=%d", b, a, d, ref.DecPTS(b)), wit{Op: "ExtractTime", Got: mon.Hex(b)})
 			}
 			p := r.Bytes(6)
-			if g := gots.ExtractPCR(p); g != ref.DecPCR(p) {
-				c.Fail("pcr:decode-arbitrary", fmt.Sprintf("ExtractPCR(%x)=%d, reference=%d", p, g, ref.DecPCR(p)), wit{Op: "ExtractPCR", Got: mon.Hex(p)})
+			ext := int(p[4]&1)<<8 | int(p[5])
+			g := gots.ExtractPCR(p)
+			if ext <= 299 {
+				// a valid extension: the value is base*300+extension whatever the reserved bits are
+				if g != ref.DecPCR(p) {
+					c.Fail("pcr:decode-arbitrary", fmt.Sprintf("ExtractPCR(%x)=%d, reference=%d", p, g, ref.DecPCR(p)), wit{Op: "ExtractPCR", Got: mon.Hex(p)})
+				}
+			} else {
+				c.Count("pcr.extension_above_299") // no PCR value is written like this; the statement fixes no result
+			}
+			// in either case the result depends on the value bits only
+			q := append([]byte{}, p...)
+			q[4] ^= byte(r.Intn(64)) << 1
+			if g2 := gots.ExtractPCR(q); g2 != g {
+				c.Fail("pcr:decode-depends-on-reserved-bits", fmt.Sprintf("ExtractPCR(%x)=%d but ExtractPCR(%x)=%d: the two differ in reserved bits only", p, g, q, g2), wit{Op: "ExtractPCR", Got: mon.Hex(p)})
 			}
 		}
 		if c.WantSample() {
